@@ -329,6 +329,10 @@ def _paths():
         ("constants+units[degR,g/cm3]", lambda fn, e, T, r: fin(fn, fn(e, T * 1.8 * degR, r / 1000 * gcm3, constants=const, units=u))),
         ("constants+b0[K,kg/m3]", lambda fn, e, T, r: fin(fn, fn(e, T * K, r * kgm3, b0=1 * u.molal, constants=const))),
         ("constants+b0[mmol/g]", lambda fn, e, T, r: fin(fn, fn(e, T * K, r * kgm3, b0=1 * u.mmol / u.gram, constants=const))),
+        # a standard molality of magnitude 1 in ANOTHER unit (1 mmol/kg): A and B scale with sqrt(b0); the value is scaled back here
+        ("units+b0[1 mmol/kg]/sqrt(1e-3)", lambda fn, e, T, r: fin(fn, fn(e, T * K, r * kgm3, b0=1 * u.mmol / u.kg, units=u)) / math.sqrt(1e-3)),
+        ("constants+units+b0[1 mmol/kg]/sqrt(1e-3)", lambda fn, e, T, r: fin(fn, fn(e, T * K, r * kgm3, b0=1 * u.mmol / u.kg, constants=const, units=u)) / math.sqrt(1e-3)),
+        ("units+b0[1000 mmol/kg]", lambda fn, e, T, r: fin(fn, fn(e, T * K, r * kgm3, b0=1000 * u.mmol / u.kg, units=u))),
     ]
 
 
@@ -603,7 +607,8 @@ def _state_Gsym(res, count=True):
 
 
 # =============================================================================================== layer P
-P_Z = {1: [(1,), (-2,), (3,)], 2: [(1, -1), (2, -1), (-2, 3), (4, -4)], 3: [(1, -1, 2), (2, -2, -1), (3, -1, 1), (4, -4, -2)]}
+# (charge 0: an uncharged participant such as H2O or CO2 — its limiting/Davies log gamma is 0, its extended one is C*I)
+P_Z = {1: [(1,), (-2,), (3,), (0,)], 2: [(1, -1), (2, -1), (-2, 3), (4, -4), (0, 1)], 3: [(1, -1, 2), (2, -2, -1), (3, -1, 1), (4, -4, -2), (0, 1, -1), (2, 0, -2)]}
 P_IS = [0.0, 1e-4, 0.01, 0.1, 0.5, 2.0]
 P_TER = [(298.15, 78.4, 997.0), (273.15, 87.9, 999.8), (373.15, 55.5, 958.4), (650.0, 5.0, 500.0)]
 P_a = (3e-10, 4.5e-10, 9e-10)
